@@ -1873,6 +1873,17 @@ package ast
 //@      && (typeof(m) == typeid(*ThenScopeMeta) ==> typeof(n) == typeid(*ThenScope) && as(n, *ThenScope).AstID == as(m, *ThenScopeMeta).AstID && as(n, *ThenScope).GrlText == as(m, *ThenScopeMeta).GrlText)
 //@      && (typeof(m) == typeid(*VariableMeta) ==> typeof(n) == typeid(*Variable) && as(n, *Variable).AstID == as(m, *VariableMeta).AstID && as(n, *Variable).GrlText == as(m, *VariableMeta).GrlText && as(n, *Variable).Name == as(m, *VariableMeta).Name)
 //@      && (typeof(m) == typeid(*WhenScopeMeta) ==> typeof(n) == typeid(*WhenScope) && as(n, *WhenScope).AstID == as(m, *WhenScopeMeta).AstID && as(n, *WhenScope).GrlText == as(m, *WhenScopeMeta).GrlText) }
+// every single-valued link a record names by id points at the node rebuilt for that id (t: the import table)
+//@ macro func linksOK(n Ref, m Ref, t map[string]Node) bool { return (typeof(m) == typeid(*ArrayMapSelectorMeta) ==> (len(as(m, *ArrayMapSelectorMeta).ExpressionID) > 0 ==> as(n, *ArrayMapSelector).Expression == t[as(m, *ArrayMapSelectorMeta).ExpressionID]))
+//@      && (typeof(m) == typeid(*AssigmentMeta) ==> (len(as(m, *AssigmentMeta).VariableID) > 0 ==> as(n, *Assignment).Variable == t[as(m, *AssigmentMeta).VariableID]) && (len(as(m, *AssigmentMeta).ExpressionID) > 0 ==> as(n, *Assignment).Expression == t[as(m, *AssigmentMeta).ExpressionID]))
+//@      && (typeof(m) == typeid(*ExpressionMeta) ==> (len(as(m, *ExpressionMeta).LeftExpressionID) > 0 ==> as(n, *Expression).LeftExpression == t[as(m, *ExpressionMeta).LeftExpressionID]) && (len(as(m, *ExpressionMeta).RightExpressionID) > 0 ==> as(n, *Expression).RightExpression == t[as(m, *ExpressionMeta).RightExpressionID]) && (len(as(m, *ExpressionMeta).SingleExpressionID) > 0 ==> as(n, *Expression).SingleExpression == t[as(m, *ExpressionMeta).SingleExpressionID]) && (len(as(m, *ExpressionMeta).ExpressionAtomID) > 0 ==> as(n, *Expression).ExpressionAtom == t[as(m, *ExpressionMeta).ExpressionAtomID]))
+//@      && (typeof(m) == typeid(*ExpressionAtomMeta) ==> (len(as(m, *ExpressionAtomMeta).ConstantID) > 0 ==> as(n, *ExpressionAtom).Constant == t[as(m, *ExpressionAtomMeta).ConstantID]) && (len(as(m, *ExpressionAtomMeta).FunctionCallID) > 0 ==> as(n, *ExpressionAtom).FunctionCall == t[as(m, *ExpressionAtomMeta).FunctionCallID]) && (len(as(m, *ExpressionAtomMeta).VariableID) > 0 ==> as(n, *ExpressionAtom).Variable == t[as(m, *ExpressionAtomMeta).VariableID]) && (len(as(m, *ExpressionAtomMeta).ExpressionAtomID) > 0 ==> as(n, *ExpressionAtom).ExpressionAtom == t[as(m, *ExpressionAtomMeta).ExpressionAtomID]) && (len(as(m, *ExpressionAtomMeta).ArrayMapSelectorID) > 0 ==> as(n, *ExpressionAtom).ArrayMapSelector == t[as(m, *ExpressionAtomMeta).ArrayMapSelectorID]))
+//@      && (typeof(m) == typeid(*FunctionCallMeta) ==> (len(as(m, *FunctionCallMeta).ArgumentListID) > 0 ==> as(n, *FunctionCall).ArgumentList == t[as(m, *FunctionCallMeta).ArgumentListID]))
+//@      && (typeof(m) == typeid(*RuleEntryMeta) ==> (len(as(m, *RuleEntryMeta).WhenScopeID) > 0 ==> as(n, *RuleEntry).WhenScope == t[as(m, *RuleEntryMeta).WhenScopeID]) && (len(as(m, *RuleEntryMeta).ThenScopeID) > 0 ==> as(n, *RuleEntry).ThenScope == t[as(m, *RuleEntryMeta).ThenScopeID]))
+//@      && (typeof(m) == typeid(*ThenExpressionMeta) ==> (len(as(m, *ThenExpressionMeta).AssignmentID) > 0 ==> as(n, *ThenExpression).Assignment == t[as(m, *ThenExpressionMeta).AssignmentID]) && (len(as(m, *ThenExpressionMeta).ExpressionAtomID) > 0 ==> as(n, *ThenExpression).ExpressionAtom == t[as(m, *ThenExpressionMeta).ExpressionAtomID]))
+//@      && (typeof(m) == typeid(*ThenScopeMeta) ==> (len(as(m, *ThenScopeMeta).ThenExpressionListID) > 0 ==> as(n, *ThenScope).ThenExpressionList == t[as(m, *ThenScopeMeta).ThenExpressionListID]))
+//@      && (typeof(m) == typeid(*VariableMeta) ==> (len(as(m, *VariableMeta).VariableID) > 0 ==> as(n, *Variable).Variable == t[as(m, *VariableMeta).VariableID]) && (len(as(m, *VariableMeta).ArrayMapSelectorID) > 0 ==> as(n, *Variable).ArrayMapSelector == t[as(m, *VariableMeta).ArrayMapSelectorID]))
+//@      && (typeof(m) == typeid(*WhenScopeMeta) ==> (len(as(m, *WhenScopeMeta).ExpressionID) > 0 ==> as(n, *WhenScope).Expression == t[as(m, *WhenScopeMeta).ExpressionID])) }
 //@ macro func isMeta(m Ref) bool { return m != nil && (typeof(m) == typeid(*ArgumentListMeta) || typeof(m) == typeid(*ArrayMapSelectorMeta) || typeof(m) == typeid(*AssigmentMeta) || typeof(m) == typeid(*ConstantMeta) || typeof(m) == typeid(*ExpressionMeta) || typeof(m) == typeid(*ExpressionAtomMeta) || typeof(m) == typeid(*FunctionCallMeta) || typeof(m) == typeid(*RuleEntryMeta) || typeof(m) == typeid(*ThenExpressionMeta) || typeof(m) == typeid(*ThenExpressionListMeta) || typeof(m) == typeid(*ThenScopeMeta) || typeof(m) == typeid(*VariableMeta) || typeof(m) == typeid(*WhenScopeMeta)) }
 // what MakeCatalog / ReadCatalogFromReader produce: every record is filed under its own AstID
 //@ macro func catWF(cat *Catalog) bool { return forall k string {cat.Data[k]} :: has(cat.Data, k) ==> isMeta(cat.Data[k]) && metaAstID(cat.Data[k]) == k }
@@ -1883,6 +1894,9 @@ package ast
 //@   modifies *
 // (catWF is what the store writes; for an arbitrary stream it may fail, then nothing is claimed about the nodes)
 //@   invariant@1[C12] rebuilt: importTable != nil && (catWF(cat) ==> forall j int {$keys[j]} :: 0 <= j && j < $i ==> has(importTable, $keys[j]) && nodeOK(importTable[$keys[j]], cat.Data[$keys[j]]))
+//@   invariant@1[C12] distinct: catWF(cat) ==> forall j1 int, j2 int {$keys[j1], $keys[j2]} :: 0 <= j1 && j1 < j2 && j2 < $i ==> importTable[$keys[j1]] != importTable[$keys[j2]]
 //@   invariant@1[C12] catkept: cat == old(cat)
+//@   invariant@2[C12] linked: catWF(cat) ==> (forall k string {cat.Data[k]} :: has(cat.Data, k) ==> has(importTable, k) && nodeOK(importTable[k], cat.Data[k])) && (forall k1 string, k2 string {importTable[k1], importTable[k2]} :: has(cat.Data, k1) && has(cat.Data, k2) && k1 != k2 ==> importTable[k1] != importTable[k2]) && (forall j int {$keys[j]} :: 0 <= j && j < $i ==> linksOK(importTable[$keys[j]], cat.Data[$keys[j]], importTable))
+//@   invariant@2[C12] catkept: cat == old(cat)
 //@   ensures err == nil ==> kb != nil
 //@   ensures[C12] header: err == nil ==> kb.Name == cat.KnowledgeBaseName && kb.Version == cat.KnowledgeBaseVersion && kb.WorkingMemory != nil && kb.WorkingMemory.Name == cat.MemoryName && kb.WorkingMemory.Version == cat.MemoryVersion
